@@ -44,7 +44,11 @@ class Timeout(BaseException):
 
 def on_alarm(sig, frm):
     raise Timeout()
-signal.signal(signal.SIGALRM, on_alarm)
+# the limit is CPU time of this process (ITIMER_PROF), so that a loaded machine cannot produce "no termination";
+# the timer repeats in case the compiler swallows the first exception
+signal.signal(signal.SIGPROF, on_alarm)
+def set_limit(seconds):
+    signal.setitimer(signal.ITIMER_PROF, seconds, 2.0 if seconds else 0)
 
 def kind_of(phase):
     n = getattr(phase, "__name__", type(phase).__name__)
@@ -63,11 +67,13 @@ class Wrapped(object):
         try:
             out = self.phase(data)
         except Timeout:
+            set_limit(0)
             raise
         except BaseException as e:
             x = xclass(e)
-            ev.append(["raise", self.idx, nerr(), x])
+            ev.append(["raise", self.idx, nerr(), x, bool(getattr(e, "reported", False))])
             self.rec["raised"] = {"cls": x, "type": type(e).__name__, "pos": err_pos(e), "msg": str(getattr(e, "message_only", e))[:300],
+                                  "reported": bool(getattr(e, "reported", False)), "phase": self.__name__,
                                   "tb": "".join(traceback.format_exception(type(e), e, e.__traceback__))[-1500:] if x in ("Other", "InternalError") else ""}
             raise
         ev.append(["exit", self.idx, nerr(), ""])
@@ -109,6 +115,19 @@ def err_pos(err):
     except Exception as e:
         return ["badpos", repr(pos)[:100], 0]
 
+def where(pos, msg):
+    """does the position of a counted error point into the source text?"""
+    if pos is None:
+        return "marker" if msg == "" else "none"
+    if pos[0] is not True:
+        return "foreign"
+    lines = CUR["lines"]
+    line, col = pos[1], pos[2]
+    if line < 1 or line > len(lines) + 1 or col < 0:
+        return "range"
+    width = len(lines[line - 1]) if line <= len(lines) else 0
+    return "ok" if col <= width + 1 else "range"
+
 _orig_report = Errors.report_error
 def report_error(err, use_stack=True):
     before = nerr()
@@ -117,8 +136,10 @@ def report_error(err, use_stack=True):
     finally:
         rec = CUR.get("rec")
         if rec is not None and nerr() > before:
-            rec["errors"].append({"cls": xclass(err), "pos": err_pos(err),
-                                  "msg": str(getattr(err, "message_only", ""))[:300]})
+            pos, msg = err_pos(err), str(getattr(err, "message_only", ""))
+            w = where(pos, msg)
+            rec["errors"].append({"cls": xclass(err), "pos": pos, "msg": msg[:300], "w": w})
+            rec["ev"].append(["error", 0, nerr(), xclass(err), w])
 Errors.report_error = report_error
 
 def repatch():
@@ -140,6 +161,7 @@ def compile_one(item):
     rec = {"id": item["id"], "phases": [], "ev": [], "errors": [], "raised": None, "escaped": "", "timeout": False}
     CUR["rec"] = rec
     CUR["src"] = os.path.abspath(src)
+    CUR["lines"] = data.splitlines()
     for k, v in (item.get("global_options") or {}).items():
         setattr(Options, k, v)
     out_c = os.path.join(d, name + (".cpp" if cplus else ".c"))
@@ -148,14 +170,14 @@ def compile_one(item):
     old_stderr = sys.stderr
     sys.stderr = io.StringIO()
     Errors.init_thread()
-    signal.alarm(per_text_timeout)
+    set_limit(per_text_timeout)
     try:
         try:
             options = Main.CompilationOptions(Main.default_options, cplus=cplus, output_file=out_c,
                                               compiler_directives=dict(item.get("directives") or {}))
             result = Main.compile(src, options)
         finally:
-            signal.alarm(0)
+            set_limit(0)
     except Timeout:
         rec["timeout"] = True
     except BaseException as e:
